@@ -169,6 +169,10 @@ func (s Site) Break(t *verifsim.Tape, d *spec.Design, loc Loc) bool {
 		cands := []string{"", "Q", "QQ QQ", strings.Repeat("Q", 9)}
 		if s, ok := cur.(string); ok && len(s) > 0 {
 			cands = append([]string{s[:len(s)-1] + "Q", "Q" + s}, cands...)
+			if strings.Contains(v0.Pattern, "\r") && loc == LocBody {
+				// the pattern's text holds a carriage return: so does the value that tells it from its CR-less twin
+				cands = append([]string{s[:len(s)-1] + "\rQ" + s[len(s)-1:], s[:len(s)-1] + "\r" + s[len(s)-1:]}, cands...)
+			}
 		}
 		found := false
 		for _, c := range cands {
